@@ -19,14 +19,14 @@ Record same_core (s s' : st) : Prop := {
 }.
 
 Lemma dataof_updn tkf pcf sq sq' tak hp u p t :
-  w1_of p = w1_of (pcf u) ->
+  wval_of p = wval_of (pcf u) ->
   (forall th, th <> u -> sq' th = sq th) ->
-  (w1_of p = true -> sq' u = sq u) ->
+  (wval_of p <> None -> sq' u = sq u) ->
   dataof tkf (updn pcf u p) sq' tak hp t = dataof tkf pcf sq tak hp t.
 Proof.
   intros Hw Hs Hu. unfold dataof. destruct (tkf t) as [|th|v|]; try reflexivity.
   destruct (Nat.eqb_spec th u) as [->|Hne].
-  - rewrite updn_eq, <- Hw. destruct (w1_of p); [rewrite Hu; reflexivity | reflexivity].
+  - rewrite updn_eq, <- Hw. destruct (wval_of p) as [[t0 i]|]; [rewrite Hu by discriminate; reflexivity | reflexivity].
   - rewrite updn_neq by exact Hne. rewrite Hs by exact Hne. reflexivity.
 Qed.
 
@@ -38,19 +38,19 @@ Lemma SInv_p_pure s s' u p :
   SInv cap cc n s -> same_core s s' -> progress s' <= hpos s -> drained s' <= hpos s -> cpc s' = cpc s ->
   ppc s' = updn (ppc s) u p ->
   (forall th, th <> u -> pseq s' th = pseq s th) ->
-  (w1_of p = true -> pseq s' u = pseq s u) ->
-  own_of p = own_of (ppc s u) -> w1_of p = w1_of (ppc s u) ->
-  PInv cap cc n (tk s) (hpos s) (retired s) (ids s) (myval s' u) p ->
+  (wval_of p <> None -> pseq s' u = pseq s u) ->
+  own_lo p = own_lo (ppc s u) -> own_hi p = own_hi (ppc s u) -> wval_of p = wval_of (ppc s u) ->
+  PInv cap cc n (hpos s) (retired s) (ids s) p ->
   SInv cap cc n s'.
 Proof.
-  intros [A1 A2 A3 A4 A5 A6 B1 B2 B3 P D T E R C Bd] [e1 e4 e5 e6 e7 e8 e9 e10 e11 e12] Hpr Hdr Ec Ep Hs Hu Ho Hw Hp.
+  intros [A1 A2 A3 A4 A5 A6 B1 B2 B3 P D T E R C Bd] [e1 e4 e5 e6 e7 e8 e9 e10 e11 e12] Hpr Hdr Ec Ep Hs Hu Hl Hh Hw Hp.
   constructor; rewrite ?e1, ?e4, ?e5, ?e6, ?e7, ?e8, ?e9, ?e10, ?e11, ?e12, ?Ec, ?Ep; try assumption.
   - intros t th. destruct (Nat.eqb_spec th u) as [->|Hne].
-    + rewrite updn_eq, Ho. apply B3.
+    + rewrite updn_eq. unfold owns. rewrite Hl, Hh. apply B3.
     + rewrite updn_neq by exact Hne. apply B3.
   - intros th. destruct (Nat.eqb_spec th u) as [->|Hne].
     + rewrite updn_eq. exact Hp.
-    + rewrite updn_neq by exact Hne. unfold myval. rewrite Hs by exact Hne. apply P.
+    + rewrite updn_neq by exact Hne. apply P.
   - intros j i Hj Hi. cbv zeta. rewrite (dataof_updn _ _ (pseq s) (pseq s')) by assumption. apply E; assumption.
 Qed.
 
@@ -63,7 +63,6 @@ Lemma SInv_c_pure s s' p :
   SInv cap cc n s'.
 Proof.
   intros [A1 A2 A3 A4 A5 A6 B1 B2 B3 P D T E R C Bd] [e1 e4 e5 e6 e7 e8 e9 e10 e11 e12] Hpr Hdr Ec Ep Es Ht Hc.
-  constructor; rewrite ?e1, ?e4, ?e5, ?e6, ?e7, ?e8, ?e9, ?e10, ?e11, ?e12, ?Ec, ?Ep, ?Es, ?Ht; try assumption.
-  intros th. unfold myval. rewrite Es. apply P.
+  constructor; rewrite ?e1, ?e4, ?e5, ?e6, ?e7, ?e8, ?e9, ?e10, ?e11, ?e12, ?Ec, ?Ep, ?Es, ?Ht; assumption.
 Qed.
 End Frame.
